@@ -33,6 +33,7 @@ type Conn struct {
 
 	session    Session
 	locker     sync.Mutex
+	closed     bool // set by Close, protected by locker
 	binarymime bool
 
 	lineLimitReader *lineLimitReader
@@ -170,6 +171,8 @@ func (c *Conn) Close() error {
 	c.locker.Lock()
 	defer c.locker.Unlock()
 
+	c.closed = true
+
 	if c.bdatPipe != nil {
 		c.bdatPipe.CloseWithError(ErrDataReset)
 		c.bdatPipe = nil
@@ -181,6 +184,13 @@ func (c *Conn) Close() error {
 	}
 
 	return c.conn.Close()
+}
+
+// isClosed reports whether Close has been called on the connection.
+func (c *Conn) isClosed() bool {
+	c.locker.Lock()
+	defer c.locker.Unlock()
+	return c.closed
 }
 
 // TLSConnectionState returns the connection's TLS connection state.
